@@ -561,7 +561,8 @@ def gen_chistory(rng, cfg, maxlen=30, views=True):
             continue
         if r < 0.30:
             i = rng.choice(active)
-            ops.append(("endw" if sess[i] == "w" else "endr", i)); sess[i] = None
+            x = "x" if views and rng.random() < 0.2 else ""          # the with-block raises
+            ops.append((("endw" if sess[i] == "w" else "endr") + x, i)); sess[i] = None
             continue
         i = (writer[0] if writer and rng.random() < 0.8 else rng.choice(active)) if rng.random() < 0.9 else rng.randrange(nh)
         kind = rng.choice(["put", "put", "put", "get", "get", "keys", "flush"] + (["contains", "len", "items", "values"] if views else []))
@@ -644,7 +645,7 @@ def directed_chistory(rng):
     ops.append(("keys", 0))
     for k in rng.sample(pre + batch, len(pre + batch)):
         ops.append(("get", 0, k))
-    ops += [("keys", 0), ("endw", 0)]
+    ops += [("keys", 0), ("endwx" if rng.random() < 0.3 else "endw", 0)]
     if len(cfg) > 1:
         ops += [("beginr", 1), ("keys", 1)] + [("get", 1, k) for k in pre + batch] + [("endr", 1)]
     ops += [("beginw", 0), ("keys", 0)] + [("get", 0, k) for k in batch[:2]] + [("endw", 0)]
@@ -653,8 +654,9 @@ def directed_chistory(rng):
 
 def bop_coq(o):
     k = o[0]
-    if k in ("beginw", "endw", "beginr", "endr", "keys", "flush"):
-        return {"beginw": "BeginW", "endw": "EndW", "beginr": "BeginR", "endr": "EndR", "keys": "CKeys", "flush": "CFlush"}[k] + f" {o[1]}"
+    if k in ("beginw", "endw", "beginr", "endr", "keys", "flush", "endwx", "endrx"):
+        return {"beginw": "BeginW", "endw": "EndW", "beginr": "BeginR", "endr": "EndR", "keys": "CKeys", "flush": "CFlush",
+                "endwx": "EndWX", "endrx": "EndRX"}[k] + f" {o[1]}"
     if k == "put":
         return f"CPut {o[1]} {cq_bytes(o[2].encode())} {o[3].coq()}"
     if k == "contains":
@@ -668,6 +670,14 @@ def bop_coq(o):
     if k == "dup":
         return f"CDup {o[1]} {o[2]}"
     return f"CGet {o[1]} {cq_bytes(o[2].encode())}"
+
+
+def _valid_queue(be):
+    """True when every buffered put is going to succeed: fresh distinct keys of legal size (then the flush at the end of the
+    session cannot fail and must leave the buffer empty)"""
+    fk = {x.decode() for x in be._ukvfile.keys()} if hasattr(be, "_ukvfile") else set()
+    qk = [x for x, _ in be._write_queue]
+    return bool(qk) and len(set(qk)) == len(qk) and not any(x in fk or len(x.encode()) > 255 for x in qk)
 
 
 def cdrive(path, ops, cfg, fault=None):
@@ -718,7 +728,17 @@ def cdrive(path, ops, cfg, fault=None):
                     viol.append(("C02:collection:listing-differs", f"reading session of handle {i} lists {sorted(c.keys())[:5]}, successfully put keys are {sorted(model)[:5]}"))
             elif k in ("endw", "endr"):
                 cm, cms[i] = cms[i], None
+                end_q = _valid_queue(be) if k == "endw" and state_before == "writing" else None
                 cm.__exit__(None, None, None); r = "BOk"
+            elif k in ("endwx", "endrx"):
+                end_q = _valid_queue(be) if k == "endwx" and state_before == "writing" else None
+                # the with-block is left by an exception of the body: the finalisers run all the same
+                cm, cms[i] = cms[i], None
+                body_exc = AttributeError("raised by the body of the with-block")
+                swallowed = cm.__exit__(AttributeError, body_exc, None)
+                r = "(BErr BAttr)"
+                if swallowed:
+                    viol.append(("C02:collection:session-swallowed-exception", "the session context manager swallowed the exception of its with-block"))
             elif k == "put":
                 listed_before = set(c.keys())
                 fk0 = {x.decode() for x in be._ukvfile.keys()} if hasattr(be, "_ukvfile") else set()
@@ -820,6 +840,11 @@ def cdrive(path, ops, cfg, fault=None):
                     viol.append(("C02:collection:failed-put-view-changed", f"failing put({o[2][:8]!r}) -> {r} changed the key listing"))
             if k in ("endw", "endr"):
                 pass
+        if k in ("endw", "endwx") and end_q and be._write_queue and fault is None:
+            # however a writing session ends -- normally or by an exception of its with-block -- its buffer is written out
+            viol.append(("C02:collection:session-end-left-buffer",
+                         f"the writing session of handle {i} ended ({'by an exception of its body' if k == 'endwx' else 'normally'}) and "
+                         f"{len(be._write_queue)} valid buffered put(s) ({[x[:8] for x, _ in be._write_queue][:4]}) were not written"))
         cops.append(bop_coq(o)); res.append(r)
         # insert-only, judged on the file itself: a record that was once complete in the file stays there, byte for byte
         if fault is None:
